@@ -25,7 +25,13 @@ import types
 _REAL = {
     "open": builtins.open, "io_open": io.open, "remove": os.remove, "unlink": os.unlink,
     "getsize": os.path.getsize, "exists": os.path.exists, "isfile": os.path.isfile,
+    "os_open": os.open, "os_close": os.close, "os_read": os.read, "os_write": os.write,
+    "os_lseek": os.lseek, "os_fstat": os.fstat, "os_stat": os.stat, "os_isatty": os.isatty,
+    "os_fsync": os.fsync, "os_ftruncate": os.ftruncate, "FileIO": io.FileIO,
+    "os_rename": os.rename, "os_replace": os.replace, "isdir": os.path.isdir,
+    "os_makedirs": os.makedirs, "os_listdir": os.listdir,
 }
+FAKE_FD_BASE = 1_000_000   # never a valid real descriptor: a stray real syscall gets EBADF
 
 SIMROOT = "/simfs/"
 TOOL_ID = 4  # sys.monitoring tool id (0 debugger, 1 coverage, 2 profiler, 5 optimizer)
@@ -140,6 +146,12 @@ class SimRawPipe(io.RawIOBase):
     def readable(self):
         return True
 
+    def fileno(self):
+        return 0
+
+    def isatty(self):
+        return False
+
     def readinto(self, b):
         want = len(b)
         left = len(self._data) - self._pos
@@ -167,6 +179,12 @@ class SimRawSink(io.RawIOBase):
 
     def writable(self):
         return True
+
+    def fileno(self):
+        return 1
+
+    def isatty(self):
+        return False
 
     def write(self, b):
         want = len(b)
@@ -339,7 +357,7 @@ class _StdinShell:
         return False
 
     def fileno(self):
-        raise io.UnsupportedOperation("fileno")
+        return 0
 
     def read(self, *a):
         return self.buffer.read(*a).decode("utf-8", "replace")
@@ -545,9 +563,202 @@ class World:
         self.stderr = io.StringIO()
         self.clock = StepClock()
         self._saved = None
+        self.fds = {}            # fake descriptor -> SimRawFile (os.open on SimFS paths)
+        self._next_fd = FAKE_FD_BASE
+
+    # descriptor-level seam ---------------------------------------------------
+    def _raw_of(self, fd):
+        if fd == 0:
+            return self.stdin_raw
+        if fd == 1:
+            return self.stdout_raw
+        return self.fds.get(fd)
+
+    def _os_open(self, path, flags, mode=0o777, *a, **kw):
+        if not SimFS.is_sim(path):
+            p = SimFS.norm(path)
+            if not os.path.isabs(p):
+                raise FileNotFoundError(2, "No such file or directory", path)
+            if flags & (os.O_WRONLY | os.O_RDWR | os.O_CREAT | os.O_TRUNC | os.O_APPEND):
+                raise HarnessError("tool tried to os.open a real path for writing: %r" % (path,))
+            return _REAL["os_open"](path, flags, mode, *a, **kw)
+        p = SimFS.norm(path)
+        fs = self.fs
+        if p in fs.files:
+            if flags & os.O_CREAT and flags & os.O_EXCL:
+                raise FileExistsError(17, "File exists", path)
+        elif flags & os.O_CREAT:
+            fs.files[p] = bytearray()
+        else:
+            raise FileNotFoundError(2, "No such file or directory", path)
+        acc = flags & (os.O_WRONLY | os.O_RDWR)
+        if flags & os.O_TRUNC and acc:
+            fs.files[p] = bytearray()
+        raw = SimRawFile(fs, p, path if isinstance(path, str) else p,
+                         readable=acc != os.O_WRONLY, writable=bool(acc),
+                         append=bool(flags & os.O_APPEND))
+        fd = self._next_fd
+        self._next_fd += 1
+        raw._fd = fd
+        self.fds[fd] = raw
+        return fd
+
+    def _os_close(self, fd):
+        if fd in self.fds:
+            self.fds.pop(fd)
+            return None
+        if fd in (0, 1, 2):
+            return None
+        return _REAL["os_close"](fd)
+
+    def _os_read(self, fd, n):
+        raw = self._raw_of(fd)
+        if raw is None:
+            return _REAL["os_read"](fd, n)
+        buf = bytearray(n)
+        got = raw.readinto(buf)
+        return bytes(buf[:got or 0])
+
+    def _os_write(self, fd, data):
+        if fd == 2:
+            self.stderr.write(bytes(data).decode("utf-8", "replace"))
+            return len(data)
+        raw = self._raw_of(fd)
+        if raw is None:
+            return _REAL["os_write"](fd, data)
+        return raw.write(data)
+
+    def _os_lseek(self, fd, pos, how):
+        raw = self.fds.get(fd)
+        if raw is not None:
+            return raw.seek(pos, how)
+        if fd in (0, 1, 2):
+            raise OSError(29, "Illegal seek")
+        return _REAL["os_lseek"](fd, pos, how)
+
+    def _stat_result(self, size, fifo=False):
+        import stat
+        mode = (stat.S_IFIFO | 0o600) if fifo else (stat.S_IFREG | 0o644)
+        return os.stat_result((mode, 1, 1, 1, 0, 0, size, 0, 0, 0))
+
+    def _os_fstat(self, fd):
+        if fd in (0, 1, 2):
+            return self._stat_result(0, fifo=True)
+        raw = self.fds.get(fd)
+        if raw is not None:
+            return self._stat_result(len(raw._buf()))
+        return _REAL["os_fstat"](fd)
+
+    def _os_stat(self, path, *a, **kw):
+        if isinstance(path, int):
+            return self._os_fstat(path)
+        try:
+            sim = SimFS.is_sim(path)
+        except Exception:
+            sim = False
+        if sim:
+            d = self.fs.files.get(SimFS.norm(path))
+            if d is None:
+                raise FileNotFoundError(2, "No such file or directory", path)
+            return self._stat_result(len(d))
+        return _REAL["os_stat"](path, *a, **kw)
+
+    def _os_isatty(self, fd):
+        if fd in (0, 1, 2) or fd in self.fds:
+            return False
+        return _REAL["os_isatty"](fd)
+
+    def _os_fsync(self, fd):
+        if fd in (0, 1, 2) or fd in self.fds:
+            return None
+        return _REAL["os_fsync"](fd)
+
+    def _os_ftruncate(self, fd, size):
+        raw = self.fds.get(fd)
+        if raw is not None:
+            raw.truncate(size)
+            return None
+        return _REAL["os_ftruncate"](fd, size)
+
+    def _os_rename(self, src, dst, *a, **kw):
+        ssim, dsim = SimFS.is_sim(src), SimFS.is_sim(dst)
+        if not ssim and not dsim:
+            if not os.path.isabs(SimFS.norm(src)):
+                raise FileNotFoundError(2, "No such file or directory", src)
+            raise HarnessError("tool tried to rename a real path %r" % (src,))
+        if ssim != dsim:
+            raise OSError(18, "Invalid cross-device link", src)
+        s_, d_ = SimFS.norm(src), SimFS.norm(dst)
+        if s_ not in self.fs.files:
+            raise FileNotFoundError(2, "No such file or directory", src)
+        self.fs.files[d_] = self.fs.files.pop(s_)
+        return None
+
+    def _isdir(self, path):
+        try:
+            if SimFS.is_sim(path):
+                p = SimFS.norm(path).rstrip("/") + "/"
+                return p == SIMROOT or any(k.startswith(p) for k in self.fs.files)
+        except Exception:
+            return False
+        return _REAL["isdir"](path)
+
+    def _os_makedirs(self, path, *a, **kw):
+        if SimFS.is_sim(path):
+            return None
+        raise HarnessError("tool tried to create a real directory %r" % (path,))
+
+    def _os_listdir(self, path="."):
+        if not isinstance(path, int) and SimFS.is_sim(path):
+            p = SimFS.norm(path).rstrip("/") + "/"
+            return sorted(set(k[len(p):].split("/")[0] for k in self.fs.files if k.startswith(p)))
+        return _REAL["os_listdir"](path)
+
+    def _fileio(self, file, mode="r", closefd=True, opener=None):
+        """io.FileIO as the tools can reach it: descriptors 0/1, fake descriptors and
+        SimFS paths resolve in the simulation."""
+        if isinstance(file, int):
+            raw = self._raw_of(file)
+            if raw is not None:
+                return raw
+            if file == 2:
+                raise HarnessError("tool opened descriptor 2 as a raw file")
+            return _REAL["FileIO"](file, mode, closefd, opener)
+        if SimFS.is_sim(file):
+            b = self.fs.open(file, mode.replace("b", "") + "b")
+            return getattr(b, "raw", None) or b._buf.raw
+        return _REAL["FileIO"](file, mode, closefd, opener)
+
+    def _open_fd(self, fd, mode, buffering=-1, encoding=None, errors=None, newline=None,
+                 closefd=True, opener=None):
+        raw = self._raw_of(fd)
+        if raw is None:
+            if fd == 2:
+                raise HarnessError("tool opened descriptor 2")
+            return _REAL["open"](fd, mode, buffering, encoding, errors, newline, closefd, opener)
+        binary = "b" in mode
+        if buffering == 0:
+            if not binary:
+                raise ValueError("can't have unbuffered text I/O")
+            return raw
+        if raw.readable() and raw.writable():
+            buf = io.BufferedRandom(raw)
+        elif raw.writable():
+            buf = io.BufferedWriter(raw)
+        else:
+            buf = io.BufferedReader(raw)
+        self.fs.handles.append(buf)
+        if binary:
+            return buf
+        txt = io.TextIOWrapper(buf, encoding=io.text_encoding(encoding), errors=errors,
+                               newline=newline)
+        self.fs.handles.append(txt)
+        return txt
 
     # patched entry points ------------------------------------------------
     def _open(self, file, mode="r", *a, **kw):
+        if isinstance(file, int) and not isinstance(file, bool):
+            return self._open_fd(file, mode, *a, **kw)
         if not isinstance(file, int) and SimFS.is_sim(file):
             return self.fs.open(file, mode, *a, **kw)
         if isinstance(file, (str, bytes, os.PathLike)) and not os.path.isabs(SimFS.norm(file)):
@@ -605,6 +816,12 @@ class World:
         os.path.getsize = self._getsize
         os.path.exists = self._exists
         os.path.isfile = self._isfile
+        os.open, os.close, os.read, os.write = self._os_open, self._os_close, self._os_read, self._os_write
+        os.lseek, os.fstat, os.stat, os.isatty = self._os_lseek, self._os_fstat, self._os_stat, self._os_isatty
+        os.fsync, os.ftruncate = self._os_fsync, self._os_ftruncate
+        io.FileIO = self._fileio
+        os.rename = os.replace = self._os_rename
+        os.path.isdir, os.makedirs, os.listdir = self._isdir, self._os_makedirs, self._os_listdir
         sys.stdin = _StdinShell(self.stdin_buf)
         sys.stdout = self.stdout_txt
         sys.stderr = self.stderr
@@ -620,6 +837,14 @@ class World:
         os.path.getsize = _REAL["getsize"]
         os.path.exists = _REAL["exists"]
         os.path.isfile = _REAL["isfile"]
+        os.open, os.close, os.read, os.write = (_REAL["os_open"], _REAL["os_close"], _REAL["os_read"],
+                                                _REAL["os_write"])
+        os.lseek, os.fstat, os.stat, os.isatty = (_REAL["os_lseek"], _REAL["os_fstat"], _REAL["os_stat"],
+                                                  _REAL["os_isatty"])
+        os.fsync, os.ftruncate = _REAL["os_fsync"], _REAL["os_ftruncate"]
+        io.FileIO = _REAL["FileIO"]
+        os.rename, os.replace = _REAL["os_rename"], _REAL["os_replace"]
+        os.path.isdir, os.makedirs, os.listdir = _REAL["isdir"], _REAL["os_makedirs"], _REAL["os_listdir"]
         sys.stdin, sys.stdout, sys.stderr = s["stdin"], s["stdout"], s["stderr"]
         self._saved = None
         return False
